@@ -7,7 +7,10 @@
   mask-then-`np.sort(...)[:, -1]`, append-and-compare-lengths loops) and is proved equal, for all
   inputs over every field, to the index-by-index definition the property states.
 -/
-import Batchie.Lemmas.MetricsSums
+import Batchie.Lemmas.MetricsSynergy
+import Batchie.Lemmas.PredictHolder
+import Batchie.Lemmas.MetricsSpace
+import Mathlib.Analysis.Real.Sqrt
 
 namespace Batchie.Props.C20
 open Batchie.Metrics
@@ -122,5 +125,395 @@ example : mse exPreds exObs = 50 / 3 ∧ mseVariance exPreds exObs = 64 / 1
     ∧ npVar ([0, 4].map (chainMse exPreds exObs exChains)) = 3721 / 16
     ∧ npVar ([0, 4].map (chainMse exPreds exObs [0, 4, 4])) = 625 / 4 := by
   refine ⟨by decide +kernel, by decide +kernel, by decide +kernel, by decide +kernel, by decide +kernel⟩
+
+/-! ## 2. single-agent effects -/
+
+section effects
+open Batchie.Proto
+variable {R : Type} [Field R]
+
+/-- well-formed id arrays: one id row (of `arity ≥ 2` cells, every id `≥ -1`) and one observation per
+    experiment -/
+structure Arrays (arity : Nat) (sids : List Int) (tids : List (List Int)) (obs : List R) : Prop where
+  ar : 2 ≤ arity
+  ntids : tids.length = sids.length
+  nobs : obs.length = sids.length
+  width : ∀ r ∈ tids, r.length = arity
+  ids : ∀ r ∈ tids, ∀ t ∈ r, -1 ≤ t
+
+/-- `create_single_treatment_effect_map` succeeds, and the entry under `(s, t)` is: nothing unless
+    `s` is a sample and `t` a treatment id of the arrays; `1` for the control; otherwise the MEAN of
+    sample `s`'s observations in which `t` is the only non-control treatment -- in whichever column
+    `t` stands, over all repeated measurements --, and no entry if there is no such observation. -/
+theorem C20_single_effect_is_mean (arity : Nat) (sids : List Int) (tids : List (List Int)) (obs : List R)
+    (h : Arrays arity sids tids obs) :
+    ∃ m, singleEffectMap arity sids tids obs = .ok m
+      ∧ ∀ s t, m.lookup (s, t)
+          = if s ∈ sids ∧ t ∈ tids.flatten then singleEffectDef sids tids obs s t else none := by
+  refine ⟨_, singleEffectMap_eq arity h.ar sids tids obs, ?_⟩
+  intro s t
+  rw [lookup_double_loop, effectCell_eq_def arity h.ar sids tids obs h.ntids h.nobs h.width h.ids]
+  simp only [mem_uniqueSorted]
+
+/-- `create_single_treatment_effect_array`: cell `(i, j)` is the table entry of
+    `(sample_ids[i], treatment_ids[i][j])`; the call fails (KeyError) iff some cell has none -/
+theorem C20_single_effect_array (arity : Nat) (sids : List Int) (tids : List (List Int)) (obs : List R)
+    (h : Arrays arity sids tids obs) (A : List (List R)) (hA : singleEffectArray arity sids tids obs = .ok A) :
+    A.length = sids.length ∧ ∀ i j, i < sids.length → j < arity →
+      singleEffectDef sids tids obs (sids.getD i 0) ((tids.getD i []).getD j 0) = some ((A.getD i []).getD j 0) := by
+  obtain ⟨m, hm, hlook⟩ := C20_single_effect_is_mean arity sids tids obs h
+  unfold singleEffectArray at hA
+  simp only [hm, bind, Except.bind] at hA
+  have hlen := Batchie.Predict.exMapM_length _ _ _ hA
+  have hz : (List.zip sids tids).length = sids.length := by simp [h.ntids]
+  refine ⟨by rw [hlen, hz], ?_⟩
+  intro i j hi hj
+  have hi' : i < (List.zip sids tids).length := by rw [hz]; exact hi
+  obtain ⟨hy, e⟩ := Batchie.Predict.exMapM_getElem _ _ _ hA i hi'
+  have hti : i < tids.length := by rw [h.ntids]; exact hi
+  have hrow : (tids[i]).length = arity := h.width _ (List.getElem_mem _)
+  simp only [List.getElem_zip] at e
+  have hj' : j < (tids[i]).length := by rw [hrow]; exact hj
+  obtain ⟨hy2, e2⟩ := Batchie.Predict.exMapM_getElem _ _ _ e j hj'
+  have hs : sids.getD i 0 = sids[i] := by simp [List.getD_eq_getElem?_getD, hi]
+  have ht : (tids.getD i []).getD j 0 = (tids[i])[j] := by simp [List.getD_eq_getElem?_getD, hti, hj']
+  have hA2 : (A.getD i []).getD j 0 = (A[i])[j] := by simp [List.getD_eq_getElem?_getD, hy, hy2]
+  rw [hs, ht, hA2]
+  have hl := hlook sids[i] (tids[i])[j]
+  have hmem : sids[i] ∈ sids ∧ (tids[i])[j] ∈ tids.flatten :=
+    ⟨List.getElem_mem _, List.mem_flatten.mpr ⟨tids[i], List.getElem_mem _, List.getElem_mem _⟩⟩
+  rw [if_pos hmem] at hl
+  rw [← hl]
+  cases hk : m.lookup (sids[i], (tids[i])[j]) with
+  | none => simp [hk] at e2
+  | some v =>
+    simp only [hk, Except.ok.injEq] at e2
+    rw [e2]
+
+end effects
+
+/-- `Arrays` is inhabited by an instance with a repeated single-agent measurement (0.2, 0.6 → mean 0.4,
+    not the last 0.6), the agent once in column 1 and once in column 0, and an unmeasured agent -/
+def exS : List Int := [0, 0, 0, 0]
+def exT : List (List Int) := [[-1, 3], [3, -1], [3, 5], [5, 5]]
+def exO : List Rat := [1/5, 3/5, 1/2, 1/4]
+
+example : Arrays 2 exS exT exO := ⟨by decide, rfl, rfl, by decide, by decide⟩
+example : singleEffectDef exS exT exO 0 3 = some (2/5) ∧ singleEffectDef exS exT exO 0 5 = none
+    ∧ singleEffectDef exS exT exO 0 (-1) = some 1 := by
+  refine ⟨by decide +kernel, by decide +kernel, by decide +kernel⟩
+
+/-! ## 3. Bliss synergy -/
+
+section synergy
+open Batchie.Proto
+variable {R : Type} [Field R]
+
+/-- the single-agent effect table of the arrays, as a function -/
+def effects (sids : List Int) (tids : List (List Int)) (obs : List R) : Int → Int → Option R :=
+  singleEffectDef sids tids obs
+
+private theorem all_congr_mem {A : Type} (l : List A) (p q : A → Bool) (h : ∀ a ∈ l, p a = q a) :
+    l.all p = l.all q := by
+  induction l with
+  | nil => rfl
+  | cons a l ih =>
+    simp only [List.all_cons]
+    rw [h a (by simp), ih (fun b hb => h b (by simp [hb]))]
+
+private theorem multi_rows_eq (arity : Nat) (sids : List Int) (tids : List (List Int)) (obs : List R)
+    (h : Arrays arity sids tids obs) :
+    List.zip (maskFilter sids (tids.map (fun r => !(isSingle arity r))))
+      (List.zip (maskFilter tids (tids.map (fun r => !(isSingle arity r)))) (maskFilter obs (tids.map (fun r => !(isSingle arity r)))))
+      = multiRows arity sids tids obs := by
+  have hs : sids = (List.zip sids (List.zip tids obs)).map (·.1) := by
+    rw [List.map_fst_zip]; simp [h.ntids, h.nobs]
+  have ht : tids = (List.zip sids (List.zip tids obs)).map (·.2.1) := by
+    have : (List.zip sids (List.zip tids obs)).map (·.2.1) = ((List.zip sids (List.zip tids obs)).map (·.2)).map (·.1) := by simp
+    rw [this, List.map_snd_zip (by simp [h.ntids, h.nobs]), List.map_fst_zip (by simp [h.ntids, h.nobs])]
+  have ho : obs = (List.zip sids (List.zip tids obs)).map (·.2.2) := by
+    have : (List.zip sids (List.zip tids obs)).map (·.2.2) = ((List.zip sids (List.zip tids obs)).map (·.2)).map (·.2) := by simp
+    rw [this, List.map_snd_zip (by simp [h.ntids, h.nobs]), List.map_snd_zip (by simp [h.ntids, h.nobs])]
+  have hmask : tids.map (fun r => !(isSingle arity r))
+      = (List.zip sids (List.zip tids obs)).map (fun r => !(isSingle arity r.2.1)) := by
+    conv_lhs => rw [ht]
+    simp
+  have := zip3_maskFilter (List.zip sids (List.zip tids obs)) (fun r => !(isSingle arity r.2.1))
+  rw [← hmask, ← hs, ← ht, ← ho] at this
+  exact this
+
+private theorem step_eq_bliss (arity : Nat) (sids : List Int) (tids : List (List Int)) (obs : List R)
+    (_h : Arrays arity sids tids obs) (m : List ((Int × Int) × R))
+    (hlook : ∀ s t, m.lookup (s, t) = if s ∈ sids ∧ t ∈ tids.flatten then singleEffectDef sids tids obs s t else none)
+    (r : Int × List Int × R) (hr : r ∈ multiRows arity sids tids obs) :
+    stepLookup m r = blissDef (effects sids tids obs) r := by
+  have hz : r ∈ List.zip sids (List.zip tids obs) := (List.mem_filter.mp hr).1
+  have hs : r.1 ∈ sids := (List.of_mem_zip hz).1
+  have ht : r.2.1 ∈ tids := (List.of_mem_zip (List.of_mem_zip hz).2).1
+  have hE : ∀ t ∈ r.2.1.filter (fun t => t != -1), m.lookup (r.1, t) = effects sids tids obs r.1 t := by
+    intro t htm
+    have : t ∈ tids.flatten := List.mem_flatten.mpr ⟨r.2.1, ht, (List.mem_filter.mp htm).1⟩
+    rw [hlook, if_pos ⟨hs, this⟩]; rfl
+  unfold stepLookup blissDef
+  have e1 : (r.2.1.filter (fun t => t != -1)).all (fun t => (m.lookup (r.1, t)).isSome)
+      = (r.2.1.filter (fun t => t != -1)).all (fun t => (effects sids tids obs r.1 t).isSome) := by
+    apply all_congr_mem
+    intro t ht; rw [hE t ht]
+  have e2 : (r.2.1.filter (fun t => t != -1)).map (fun t => (m.lookup (r.1, t)).getD 1)
+      = (r.2.1.filter (fun t => t != -1)).map (fun t => (effects sids tids obs r.1 t).getD 1) := by
+    apply List.map_congr_left
+    intro t ht; rw [hE t ht]
+  simp only [e1, e2]
+
+/-- `calculate_synergy(strict=False)` never refuses well-formed arrays and reports, for the rows
+    that are not single-agent measurements, in order, exactly those whose non-control treatments ALL
+    have a single-agent effect, with value `(product of those effects) − observation`; the others are
+    skipped. -/
+theorem C20_synergy_bliss (arity : Nat) (sids : List Int) (tids : List (List Int)) (obs : List R)
+    (h : Arrays arity sids tids obs) :
+    synergy arity sids tids obs false
+      = .ok ((multiRows arity sids tids obs).filterMap (blissDef (effects sids tids obs))) := by
+  obtain ⟨m, hm, hlook⟩ := C20_single_effect_is_mean arity sids tids obs h
+  unfold synergy
+  rw [if_neg (by have := h.ar; omega), if_neg (by simp [h.ntids]), if_neg (by simp [h.nobs])]
+  simp only [hm, bind, Except.bind]
+  rw [multi_rows_eq arity sids tids obs h, outer_lenient]
+  simp only [List.nil_append]
+  congr 1
+  apply List.filterMap_congr
+  intro r hr
+  exact step_eq_bliss arity sids tids obs h m hlook r hr
+
+/-- `strict=True` refuses (ValueError) exactly when the lenient call would skip a combination, and
+    otherwise returns the same list. -/
+theorem C20_synergy_skip_or_refuse (arity : Nat) (sids : List Int) (tids : List (List Int)) (obs : List R)
+    (h : Arrays arity sids tids obs) :
+    synergy arity sids tids obs true
+      = if (multiRows arity sids tids obs).all (fun r => (blissDef (effects sids tids obs) r).isSome)
+        then synergy arity sids tids obs false else .error .valueError := by
+  rw [C20_synergy_bliss arity sids tids obs h]
+  obtain ⟨m, hm, hlook⟩ := C20_single_effect_is_mean arity sids tids obs h
+  unfold synergy
+  rw [if_neg (by have := h.ar; omega), if_neg (by simp [h.ntids]), if_neg (by simp [h.nobs])]
+  simp only [hm, bind, Except.bind]
+  rw [multi_rows_eq arity sids tids obs h, outer_strict]
+  simp only [List.nil_append]
+  have e1 : (multiRows arity sids tids obs).all (fun r => (stepLookup m r).isSome)
+      = (multiRows arity sids tids obs).all (fun r => (blissDef (effects sids tids obs) r).isSome) := by
+    apply all_congr_mem
+    intro r hr; rw [step_eq_bliss arity sids tids obs h m hlook r hr]
+  have e2 : (multiRows arity sids tids obs).filterMap (stepLookup m)
+      = (multiRows arity sids tids obs).filterMap (blissDef (effects sids tids obs)) := by
+    apply List.filterMap_congr
+    intro r hr; exact step_eq_bliss arity sids tids obs h m hlook r hr
+  rw [e1, e2]
+
+/-- the textbook shape for a pair: both agents measured ⇒ `E(s,a) · E(s,b) − y` -/
+theorem C20_synergy_pair (E : Int → Int → Option R) (s a b : Int) (y x1 x2 : R) (ha : a ≠ -1) (hb : b ≠ -1)
+    (h1 : E s a = some x1) (h2 : E s b = some x2) :
+    blissDef E (s, [a, b], y) = some (s, [a, b], x1 * x2 - y) := by
+  simp [blissDef, prodL, ha, hb, h1, h2]
+
+end synergy
+
+example : (multiRows 2 exS exT exO).filterMap (blissDef (effects exS exT exO)) = [] ∧
+    (multiRows 2 [0, 0, 0] [[-1, 3], [3, -1], [3, 3]] [1/5, 3/5, (1/2 : Rat)]).filterMap
+      (blissDef (effects [0, 0, 0] [[-1, 3], [3, -1], [3, 3]] [1/5, 3/5, (1/2 : Rat)])) = [(0, [3, 3], -17/50)] := by
+  refine ⟨by decide +kernel, by decide +kernel⟩
+
+/-! ## 4. the full combinatoric space -/
+
+section space
+open Batchie.Proto Batchie.Predict
+
+/-- `generate_full_combinatoric_space`, for a treatment mapping given as its list of rows `rows` with
+    id column `idOf`: when it returns, the id rows of the artificial screen are the images under the
+    screen's OWN mapping of the combinations of mapping rows; every `arity`-element combination of
+    distinct mapping rows (a sub-sequence of the mapping) occurs, nothing else occurs, there are
+    `C(n, arity)` of them, none twice; and every row carries the requested sample id. -/
+theorem C20_space_complete {ρ : Type} (rows : List ρ) (idOf : ρ → Int) (hnd : rows.Nodup) (arity : Nat)
+    (smapIds : List Int) (sid : Int) (sc : PScreen)
+    (h : fullSpace arity (rows.map idOf) smapIds sid = .ok sc) :
+    sc.arity = arity
+    ∧ sc.tids = (combos arity rows).map (List.map idOf)
+    ∧ (∀ c : List ρ, c ∈ combos arity rows ↔ c.Sublist rows ∧ c.length = arity)
+    ∧ (combos arity rows).Nodup
+    ∧ (combos arity rows).length = Nat.choose rows.length arity
+    ∧ sc.sids = List.replicate (Nat.choose rows.length arity) sid
+    ∧ sid ∈ smapIds := by
+  unfold fullSpace at h
+  rw [List.length_map] at h
+  cases hc : combinationCount rows.length arity with
+  | error e => simp [hc, bind, Except.bind] at h
+  | ok cnt =>
+    simp only [hc, bind, Except.bind] at h
+    split at h
+    · cases h
+    · split at h
+      · cases h
+      · rename_i hs
+        simp only [Except.ok.injEq] at h
+        subst h
+        have hlen : (combos arity (rows.map idOf)).length = Nat.choose rows.length arity := by
+          rw [length_combos]; simp
+        refine ⟨rfl, combos_map idOf arity rows, fun c => mem_combos arity rows c, nodup_combos arity rows hnd,
+          length_combos arity rows, by simp [hlen], ?_⟩
+        simpa using hs
+
+/-- it refuses exactly: more treatments per experiment than mapping rows (`math.factorial` of a
+    negative number), more than 10^7 combinations, or a sample id outside the sample mapping -/
+theorem C20_space_refuses (tmapIds smapIds : List Int) (arity : Nat) (sid : Int) :
+    (∃ sc, fullSpace arity tmapIds smapIds sid = .ok sc)
+      ↔ arity ≤ tmapIds.length ∧ Nat.choose tmapIds.length arity ≤ 10000000 ∧ sid ∈ smapIds := by
+  unfold fullSpace
+  by_cases hk : arity ≤ tmapIds.length
+  · rw [combinationCount_eq _ _ hk]
+    simp only [bind, Except.bind]
+    by_cases h1 : Nat.choose tmapIds.length arity > 10000000
+    · rw [if_pos h1]
+      constructor
+      · rintro ⟨sc, h⟩; cases h
+      · rintro ⟨_, h, _⟩; omega
+    · rw [if_neg h1]
+      by_cases h2 : smapIds.contains sid = true
+      · have hm : sid ∈ smapIds := by simpa using h2
+        rw [if_neg (by simp [hm])]
+        exact ⟨fun _ => ⟨hk, by omega, hm⟩, fun _ => ⟨_, rfl⟩⟩
+      · have hm : sid ∉ smapIds := by simpa using h2
+        rw [if_pos (by simp [hm])]
+        constructor
+        · rintro ⟨sc, h⟩; cases h
+        · rintro ⟨_, _, h⟩; exact absurd h hm
+  · have : combinationCount tmapIds.length arity = .error .valueError := by
+      simp [combinationCount, Nat.lt_of_not_le hk]
+    rw [this]
+    simp only [bind, Except.bind]
+    constructor
+    · rintro ⟨sc, h⟩; cases h
+    · rintro ⟨h, _⟩; exact absurd h hk
+
+end space
+
+example : (fullSpace 2 [-1, 0, 1] [0, 1] 1).toOption.map (fun sc => (sc.arity, sc.sids, sc.tids))
+    = some (2, [1, 1, 1], [[-1, 0], [-1, 1], [0, 1]]) := by
+  decide
+
+/-! ## 5. the between-sample similarity matrix -/
+
+section corr
+variable {R : Type} [Field R]
+
+private theorem dot_comm (a b : List R) : dot a b = dot b a := by
+  unfold dot
+  rw [List.zipWith_comm]
+  congr 2
+  funext x y
+  exact mul_comm y x
+
+private theorem entry_gram (X : List (List R)) (i j : Nat) (hi : i < X.length) (hj : j < X.length) :
+    entry (gram X) i j = dot X[i] X[j] := by
+  simp [entry, gram, List.getD_eq_getElem?_getD, hi, hj]
+
+private theorem entry_gram_out (X : List (List R)) (i j : Nat) (h : ¬ (i < X.length ∧ j < X.length)) :
+    entry (gram X) i j = 0 := by
+  by_cases hi : i < X.length
+  · have hj : ¬ j < X.length := fun hj => h ⟨hi, hj⟩
+    simp [entry, gram, List.getD_eq_getElem?_getD, hi, hj]
+  · simp [entry, gram, List.getD_eq_getElem?_getD, hi]
+
+variable [Sqrt R]
+
+/-- the similarity matrix is symmetric (every entry, whatever `sqrt` is) -/
+theorem C20_corr_symmetric (P : List (List R)) (i j : Nat) :
+    entry (corrOfPredictions P) i j = entry (corrOfPredictions P) j i := by
+  unfold corrOfPredictions
+  generalize normalizeRows (center P) = X
+  by_cases h : i < X.length ∧ j < X.length
+  · rw [entry_gram X i j h.1 h.2, entry_gram X j i h.2 h.1, dot_comm]
+  · rw [entry_gram_out X i j h, entry_gram_out X j i (fun h' => h ⟨h'.2, h'.1⟩)]
+
+omit [Sqrt R] in
+private theorem sumL_map_div_sq (r : List R) (c : R) :
+    sumL (List.zipWith (· * ·) (r.map (· / c)) (r.map (· / c))) = sumL (r.map Metrics.sq) / (c * c) := by
+  induction r with
+  | nil => simp [sumL]
+  | cons a r ih =>
+    simp only [List.map_cons, List.zipWith_cons_cons, Batchie.Predict.sumL_cons, ih, Metrics.sq]
+    rw [add_div, div_mul_div_comm]
+
+/-- Unit diagonal, for any `sqrt` that squares back on sample `i`'s squared norm `s`, under the
+    explicit non-degeneracy hypothesis `s ≠ 0` (the centred prediction vector of sample `i` is not
+    zero; at the excluded point the code divides 0 by 0 and reports NaN). -/
+theorem C20_corr_unit_diagonal (P : List (List R)) (i : Nat) (hi : i < P.length)
+    (hsq : Sqrt.sqrt (sumL (((center P).getD i []).map Metrics.sq)) * Sqrt.sqrt (sumL (((center P).getD i []).map Metrics.sq))
+            = sumL (((center P).getD i []).map Metrics.sq))
+    (hne : sumL (((center P).getD i []).map Metrics.sq) ≠ 0) :
+    entry (corrOfPredictions P) i i = 1 := by
+  unfold corrOfPredictions
+  have hc : (center P).length = P.length := by simp [center]
+  have hi' : i < (center P).length := by rw [hc]; exact hi
+  have hn : i < (normalizeRows (center P)).length := by simp [normalizeRows, hi']
+  rw [entry_gram _ i i hn hn]
+  have hrow : (normalizeRows (center P))[i]
+      = ((center P)[i]).map (· / Sqrt.sqrt (sumL (((center P)[i]).map Metrics.sq))) := by
+    simp [normalizeRows]
+  have hg : (center P).getD i [] = (center P)[i] := by simp [List.getD_eq_getElem?_getD, hi']
+  rw [hg] at hsq hne
+  rw [hrow, dot, sumL_map_div_sq, hsq]
+  exact div_self hne
+
+end corr
+
+/-- `correlation_matrix` is that similarity matrix of the stacked AVERAGE viability predictions, one
+    row per sample id present in the screen (ascending), each computed on the full combinatoric space
+    of that sample (section 4) -/
+theorem C20_corr_from_space {R Θ : Type} [Field R] [Sqrt R] (nan : R → Bool)
+    (viab : Θ → Batchie.Predict.PScreen → Except Batchie.Proto.Err (List R)) (declared : Nat) (thetas : List Θ)
+    (arity : Nat) (tmapIds smapIds screenSids : List Int) (M : List (List R))
+    (h : correlationMatrix nan viab declared thetas arity tmapIds smapIds screenSids = .ok M) :
+    ∃ preds, M = corrOfPredictions preds ∧ preds.length = (uniqueSorted screenSids).length
+      ∧ ∀ i, i < preds.length → ∃ space,
+          fullSpace arity tmapIds smapIds ((uniqueSorted screenSids).getD i 0) = .ok space
+          ∧ Batchie.Predict.predictAvg nan (fun θ => viab θ space) space.size declared thetas = .ok (preds.getD i []) := by
+  unfold correlationMatrix at h
+  cases hp : (uniqueSorted screenSids).mapM (samplePrediction nan viab declared thetas arity tmapIds smapIds) with
+  | error e => rw [hp] at h; cases h
+  | ok preds =>
+    rw [hp] at h
+    simp only [bind, Except.bind, pure, Except.pure] at h
+    split at h
+    · cases h
+    · simp only [Except.ok.injEq] at h
+      have hlen := Batchie.Predict.exMapM_length _ _ _ hp
+      refine ⟨preds, h.symm, hlen, ?_⟩
+      intro i hi
+      obtain ⟨hy, e⟩ := Batchie.Predict.exMapM_getElem _ _ _ hp i (by rw [← hlen]; exact hi)
+      have hg : (uniqueSorted screenSids).getD i 0 = (uniqueSorted screenSids)[i]'(by rw [← hlen]; exact hi) := by
+        simp [List.getD_eq_getElem?_getD, ← hlen, hi]
+      have hp2 : preds.getD i [] = preds[i] := by simp [List.getD_eq_getElem?_getD, hi]
+      rw [hg, hp2]
+      unfold samplePrediction at e
+      cases hs : fullSpace arity tmapIds smapIds ((uniqueSorted screenSids)[i]'(by rw [← hlen]; exact hi)) with
+      | error e' => rw [hs] at e; cases e
+      | ok space =>
+        rw [hs] at e
+        exact ⟨space, rfl, e⟩
+
+/-- over the reals with the real square root only non-degeneracy is needed -/
+noncomputable instance realSqrt : Sqrt ℝ := ⟨Real.sqrt⟩
+
+theorem C20_corr_unit_diagonal_real (P : List (List ℝ)) (i : Nat) (hi : i < P.length)
+    (hne : sumL (((center P).getD i []).map Metrics.sq) ≠ 0) :
+    entry (corrOfPredictions P) i i = 1 := by
+  apply C20_corr_unit_diagonal P i hi _ hne
+  apply Real.mul_self_sqrt
+  rw [sumL_eq_sum]
+  apply List.sum_nonneg
+  intro x hx
+  obtain ⟨y, _, rfl⟩ := List.mem_map.mp hx
+  exact mul_self_nonneg y
+
+/-- the non-degeneracy hypothesis is satisfiable (two samples, two combinations) -/
+example : sumL (((center ([[1, 2], [3, 0]] : List (List Rat))).getD 0 []).map Metrics.sq) = 2 := by decide +kernel
 
 end Batchie.Props.C20
